@@ -8,6 +8,7 @@
   `Reachable st` = reached from a fresh client by **any** finite sequence of atomic steps.
 -/
 import JrpcVerif.Proofs.ClientSlotLemmas
+import JrpcVerif.Model.ClientTyped
 namespace Jrpc.Client
 open Jrpc
 
@@ -224,5 +225,34 @@ example :
     let st0 := (run (St.init 2 false) (gapSteps.take 3)).1.core
     ((handleArray st0 [tClose]).st.chans.map (·.senderAlive), (handleSingle st0 tClose).st.chans.map (·.senderAlive)) =
       ([false], [false]) := by decide
+
+/-! ### C05.6 — typed streams: one item (`Ok` or `Err`) per notification, in order, nothing skipped -/
+
+/-- exactly one stream item per payload taken from the channel -/
+theorem c05_typed_one_item_per_notification {ρ : Type} (δ : Text → Option ρ) (ps : List Text) :
+    (typedItems δ ps).length = ps.length ∧
+    ∀ i : Nat, (typedItems δ ps)[i]? = (ps[i]?).map (typedItem δ) := by
+  refine ⟨by simp [typedItems], ?_⟩
+  intro i
+  simp [typedItems]
+
+/-- a payload that is no value of the item type is an `Err` item at its own position: it is not skipped, and it does
+not disturb its neighbours -/
+theorem c05_typed_err_item_not_skipped {ρ : Type} (δ : Text → Option ρ) (before after : List Text) (p : Text)
+    (hbad : δ p = none) :
+    typedItems δ (before ++ p :: after) = typedItems δ before ++ none :: typedItems δ after := by
+  simp [typedItems, typedItem, hbad]
+
+/-- the prefix property carries over: what a typed stream has yielded is, item by item, the decode of a prefix of
+the payloads that were sent for it — for every channel of every reachable state -/
+theorem c05_typed_prefix {ρ : Type} (δ : Text → Option ρ) (st : St) (hr : Reachable st) (ch : Chan)
+    (hc : ch ∈ st.core.chans) : typedItems δ ch.yielded <+: typedItems δ ch.sent := by
+  obtain ⟨t, ht⟩ := c05_prefix st hr ch hc
+  exact ⟨typedItems δ t, by rw [← ht]; simp [typedItems]⟩
+
+/-- one more `next` on the raw channel is one more typed item, the decode of the payload at the head of the buffer -/
+theorem c05_typed_next {ρ : Type} (δ : Text → Option ρ) (ys : List Text) (p : Text) :
+    typedItems δ (ys ++ [p]) = typedItems δ ys ++ [typedItem δ p] := by
+  simp [typedItems]
 
 end Jrpc.Client
